@@ -458,6 +458,21 @@ def m_sk_from_string(ctx, args, kw):
     return ModelObj("SigningKey", k=k)
 
 
+@nmodel((ecdsa.SigningKey, "from_secret_exponent"))
+def m_sk_from_secexp(ctx, args, kw):
+    k = simplify_native(args[0] if args else kw["secexp"])
+    curve = kw.get("curve", args[1] if len(args) > 1 else None)
+    if curve is not ecdsa.SECP256k1:
+        raise Undecided("curve other than SECP256k1")
+    if set(kw) - {"secexp", "curve", "hashfunc"}:
+        raise Undecided("SigningKey.from_secret_exponent with unmodelled arguments")
+    if isinstance(k, bool) or not (isinstance(k, int) or (is_sym(k) and z3.is_int(k))):
+        raise Undecided("from_secret_exponent of a non-integer")
+    if not ctx.branch(land(k >= 1, k < U.N) if is_sym(k) else (1 <= k < U.N)):
+        raise PyRaise(MPE, "secret exponent out of range")
+    return ModelObj("SigningKey", k=k)
+
+
 ATTR_MODELS["SigningKey"] = {
     "get_verifying_key": lambda ctx, o: (lambda: ModelObj("VerifyingKey", pt=U.ecmul(o.f["k"]))),
     "to_string": lambda ctx, o: (lambda: simplify_native(to_be(o.f["k"], 32))),
